@@ -18,7 +18,11 @@ theorems hold for EVERY configuration (any number of callers of any kind) and EV
 callers may enter Send / Wait while Run is still starting up), so for every way the program ended:
 quit, Kill(), parent-context cancellation, interrupt, read error, panic - and a failure or a panic
 of the start-up (after a failed `initTerminal` Run returns WITHOUT a shutdown: the deferred
-`cancel()` and `close(finished)` are what releases the callers then).
+`cancel()` and `close(finished)` are what releases the callers then).  `s.senders` is not fixed by the
+configuration: every Exec APPENDS callers (the goroutines RestoreTerminal spawns to Send the repaint
+/ size message and the callback's message, `exResSpawn`; one caller in the error arms) - the theorems
+quantify over every index of `s.senders` in the state at hand, so they cover those callers too
+(`C13_exec_callers`).
 
 Only property theorems live here; helpers are in `Tea/Proofs/Lifecycle.lean` (invariants) and
 `Tea/Proofs/LifecycleApi.lean` (enabledness of the callers' steps, release of all callers).
@@ -104,6 +108,37 @@ theorem C13_before_running (s : St) (hctx : s.ctxDone = false) (hel : s.el ≠ .
     (i : Nat) (cl : Caller) (hi : s.senders[i]? = some cl) (_hb : cl.pc = .blocked) :
     step s (.sendAbort i) = none ∧ step s (.elRecvSender i) = none := by
   simp [step, hi, hctx, hel]
+
+/-- THE CALLERS AN EXEC SPAWNS. RestoreTerminal's last step appends two callers already blocked in
+Send (the error arms of an Exec: one); they are entries of `senders` like any other - the callers
+that were there keep their indices -, so when Run has returned each of them returns by a step of its
+own (`C13_send_released` at the indices `s.senders.length`, `s.senders.length + 1`). -/
+theorem C13_exec_callers (s s' : St) (hs : step s .exResSpawn = some s') :
+    s'.senders = s.senders ++ [{ kind := .user, pc := .blocked }, { kind := .user, pc := .blocked }] ∧
+    (∀ (i : Nat) (cl : Caller), s.senders[i]? = some cl → s'.senders[i]? = some cl) ∧
+    (∀ c, Reachable c s' → s'.runPc = .returned → ∀ i : Nat, i = s.senders.length ∨ i = s.senders.length + 1 →
+      ∃ s'', step s' (.sendAbort i) = some s'' ∧
+        s''.senders[i]? = some { kind := .user, pc := .returned }) := by
+  have hsend : s'.senders =
+      s.senders ++ [{ kind := .user, pc := .blocked }, { kind := .user, pc := .blocked }] := by
+    simp only [step] at hs
+    split at hs
+    · cases hs; rfl
+    · cases hs
+  refine ⟨hsend, ?_, ?_⟩
+  · intro i cl hi
+    have hlt : i < s.senders.length := by
+      apply Classical.byContradiction
+      intro hn
+      rw [List.getElem?_eq_none (by omega)] at hi
+      cases hi
+    rw [hsend, List.getElem?_append_left hlt, hi]
+  · intro c hr hret i hi
+    have hget : s'.senders[i]? = some { kind := .user, pc := .blocked } := by
+      rw [hsend]
+      rcases hi with h | h <;> subst h <;> simp
+    obtain ⟨s'', h1, h2, _⟩ := C13_send_released c s' hr hret i _ hget rfl
+    exact ⟨s'', h1, h2⟩
 
 /-! ### 2. Wait -/
 
@@ -236,6 +271,18 @@ context, long before Run returns -/
 example : (runLabels (init0 cfg) [.sendCall 1, .suSigHandler, .killCall, .shCancel (some 0), .sendAbort 1]).map
     (fun s => (s.runPc, s.senders.map (·.pc))) =
     some (.starting .newRenderer, [.notCalled, .returned, .notCalled, .notCalled]) := by
+  decide
+
+/-- an Exec appends two callers blocked in Send (indices 1 and 2 here); Kill() while Update has the
+execMsg: when Run has returned both can return by themselves -/
+example : (runLabels (init { cfg with senders := [.exec] })
+    ([.sendCall 0] ++ execSchedule 0 ++
+     [.killCall, .shCancel (some 0), .callbackReturns, .elCmdAbort, .runTail, .shCancel none, .dispExit,
+      .sigExit, .resizeExit, .initAbort, .shHandlers none, .shReader none, .shRenderer none,
+      .shRestore none, .runReturn, .sendAbort 2, .sendAbort 1])).map obs =
+    some (.returned, .killed, [.returned, .returned, .returned], [.notCalled, .notCalled, .notCalled]) ∧
+    (runLabels (init { cfg with senders := [.exec] }) ([.sendCall 0] ++ execSchedule 0)).map
+      (fun s => s.senders.map (·.pc)) = some [.returned, .blocked, .blocked] := by
   decide
 
 /-- before the end, a Send on a busy loop waits (no step of its own), and Wait waits -/
